@@ -10,6 +10,7 @@ def run(ctx):
     accept.rule_single_member_read_guarded(ctx)
     from . import invariance
     invariance.rule_component_traversal(ctx)  # a list spread over several components: every component is merged in
+    invariance.rule_component_extraction(ctx)  # ... searched from every listed argument
     ctx.assume("modelled std functions of sa/tags.py (iterator adaptors, Vec push/append, vec!, iter::once/chain); everything else is reported as `cannot analyse`")
     ctx.assume("SAT semantics: a clause is a disjunction, assumptions are a conjunction")
     return (
